@@ -1,6 +1,7 @@
 """C07 — FSDP / HSDP Shampoo equals serial Shampoo on the shard's recovered tensor blocks."""
 from __future__ import annotations
 
+import math
 import random
 
 from harness import family, tlc
@@ -159,6 +160,29 @@ def run(ctx):
     tasks = [t for t in tasks if usable(t)]
     results = sp.pool_map(dc.run_shard_task, tasks)
     evaluate(ctx, tasks, results, "C07")
+    # real torch FSDP in the loop: its shard metadata must be the spec's flat-parameter model with 16-byte alignment
+    mtasks = attach_spec([{"shapes": rng.choice(SHAPES), "S": rng.choice([1, 2, 3, 4]), "align": 4} for _ in range(16 if quick else 120)])
+    for t, r in zip(mtasks, sp.pool_map(dc.fsdp_metadata_task, mtasks)):
+        ctx.add("evaluations")
+        if "crash" in r:
+            raise tlc.TLCMachineryError("FSDP metadata worker crashed:\n" + r["crash"])
+        if any(r["errors"].values()):
+            ctx.note(f"real FSDP wrapping failed in the simulation (coverage reduced): {list(r['errors'].values())[0][:120]}")
+            continue
+        for k in range(t["S"]):
+            got = r["ranks"][str(k)]
+            want = [tuple(x) for x in t["shards"][k]]
+            obs = [(m[0], m[1]) if m else None for m in got["meta"]]
+            if obs != want:
+                ctx.violation(f"compile_fsdp_parameter_metadata on real FSDP (shapes {t['shapes']}, {t['S']} ranks, rank {k}) gives {obs}, the "
+                              f"flat-parameter model gives {want}", {"kind": "fsdp_metadata"}, {"task": t})
+            for i, m in enumerate(got["meta"]):
+                if m and (m[2] != list(t["shapes"][i]) or m[3] != math.prod(t["shapes"][i]) or m[4] != m[1] - m[0]):
+                    ctx.violation(f"FSDP metadata of parameter {i} inconsistent with the parameter: {m}", {"kind": "fsdp_metadata"}, {"task": t})
+            # with one rank torch FSDP switches to NO_SHARD, whose parameters are (correctly) classified as "other"
+            if got["parts"] != ([0, 0, got["named"]] if t["S"] == 1 else [got["named"], 0, 0]):
+                ctx.violation(f"parse_fsdp_params does not partition the FSDP parameters: {got['parts']} of {got['named']}", {"kind": "parse_fsdp_params"}, {"task": t})
+    ctx.add("real_fsdp_metadata_runs", len(mtasks))
     hist = {}
     for t in tasks:
         key = f"{t['kind']} S={t['S']}" + (f" R={t['R']} GS={t['GS']} {t['comm']}" if t["kind"] == "hsdp" else "")
@@ -174,7 +198,7 @@ def run(ctx):
                     "and SOAP); T: per-column gather logs validated by TLC; non-trivial = some shard holds a proper part of a parameter")
     if tasks:
         ctx.sample({"kind": tasks[0]["kind"], "shapes": tasks[0]["shapes"], "S": tasks[0]["S"], "shards": tasks[0]["shards"], "pieces_rank0": tasks[0]["pieces"][0]})
-    ctx.assume("shard boundaries come from the spec's flat-parameter model (concatenate, cut evenly); real FSDP wrapping is not in the loop")
+    ctx.assume("shard boundaries come from the spec's flat-parameter model (concatenate with optional 16-byte alignment, pad, cut evenly), which is checked against real torch FSDP(use_orig_params=True) metadata on simulated ranks")
     ctx.assume("ranks whose shard holds no element are excluded: the optimizer asserts at least one block per rank")
 
 
